@@ -305,6 +305,23 @@ func c03cOracle(p c03cParam, got string) (string, string) {
 	return "", ""
 }
 
+// c03cExplore = vsched.Explore, except that a failure of the engine's self check "the same schedule run twice gives the same
+// trace and the same verdict" (a panic of the engine; it never fails on the pinned tree) is returned instead of ending
+// the shard: a tree whose behaviour depends on what earlier executions left behind (package-level state: a counter, a
+// cache, a sync.Once) is reported as a violation (control-run/not-deterministic) and the job is given up.
+func c03cExplore(cfg vsched.Config, body func(x *vsched.Exec)) (st *vsched.Stats, diverged string) {
+	defer func() {
+		if e := recover(); e != nil {
+			if s, ok := e.(string); ok && strings.HasPrefix(s, "vsched: replay of a") {
+				st, diverged = &vsched.Stats{Outcomes: map[string]int64{}, TraceHashes: map[uint64]struct{}{}}, s
+				return
+			}
+			panic(e)
+		}
+	}()
+	return vsched.Explore(cfg, body), ""
+}
+
 func TestVerifC03C(t *testing.T) {
 	log.SetOutput(io.Discard)
 	log.StandardLogger().ExitFunc = vsched.Exit
@@ -462,14 +479,20 @@ func TestVerifC03C(t *testing.T) {
 		cfg := vsched.Config{Name: "cli-" + p.In, Preemptions: p.Bound, DelayBounding: true, Policy: p.Policy,
 			Horizon: 40000, MaxExec: 200000, Expired: r.Expired, Reset: c03cReset(p), Check: check(p)}
 		vsched.MapOrderChoices = true
-		st := vsched.Explore(cfg, func(x *vsched.Exec) { x.Obs = c03cBody(p) })
+		st, div := c03cExplore(cfg, func(x *vsched.Exec) { x.Obs = c03cBody(p) })
 		vsched.MapOrderChoices = false
+		if div != "" {
+			r.Violate("cli/"+p.In+"->"+p.Out+"/control-run/not-deterministic", fmt.Sprintf("CLIReadBioSequences(%s) -> worker -> filter=%v -> CLIWriteBioSequences(%s) batch=%d workers=%d policy=%d: %s", p.In, p.Filter, p.Out, p.Batch, p.Workers, p.Policy, div), p)
+			r.Cap(fmt.Sprintf("exploration of cli %s/%s given up: the same schedule does not give the same execution twice", p.In, p.Out))
+			continue
+		}
 		r.Eval(st.Executions)
 		r.Trace(st.Executions)
 		r.Trans(st.Points)
 		r.Replayed(st.ReplaysChecked)
 		r.Count("hb_states", st.States)
 		r.Count("jobs_"+p.Mode, 1)
+		r.Count("schedules_executed", st.Executions)
 		r.Count("cli_jobs_"+p.In+"_"+p.Out, 1)
 		for o, n := range st.Outcomes {
 			r.Count("outcome_"+o, n)
@@ -499,5 +522,5 @@ func TestVerifC03C(t *testing.T) {
 				p.In, p.Filter, p.Out, p.Batch, p.Workers, p.Policy, parts[1], v.Choices), q)
 		}
 	}
-	r.RequireNonVacuous("outcome_completed")
+	r.RequireNonVacuous("schedules_executed") // what the harness did; how the executions ended is the tree's answer
 }
